@@ -29,6 +29,29 @@
 
 namespace {
 
+// Reads a ruleset-level delay given in seconds. The whole string has to be a
+// non-negative int; nothing may escape as an exception: compileDropIn runs on
+// the drop in watcher thread, where an exception terminates the daemon.
+bool parseDelay(const std::string& str, const char* what, int& out) {
+  try {
+    size_t pos = 0;
+    int v = std::stoi(str, &pos);
+    if (pos != str.size()) {
+      OLOG << "Ruleset " << what << " is not an integer: " << str;
+      return false;
+    }
+    if (v < 0) {
+      OLOG << "Ruleset " << what << " must be non-negative";
+      return false;
+    }
+    out = v;
+    return true;
+  } catch (const std::exception& e) {
+    OLOG << "Ruleset " << what << " is not a valid integer: " << str;
+    return false;
+  }
+}
+
 template <typename T, typename PluginT>
 std::unique_ptr<PluginT> compilePluginGeneric(
     Oomd::PluginRegistry<PluginT>& registry,
@@ -144,18 +167,20 @@ std::unique_ptr<Oomd::Engine::Ruleset> compileRuleset(
 
   // post_action_delay field is optional
   if (ruleset.post_action_delay.size()) {
-    post_action_delay = std::stoi(ruleset.post_action_delay);
-    if (post_action_delay < 0) {
-      OLOG << "Ruleset post_action_delay must be non-negative";
+    if (!parseDelay(
+            ruleset.post_action_delay,
+            "post_action_delay",
+            post_action_delay)) {
       return nullptr;
     }
   }
 
   // prekill_hook_timeout field is optional
   if (ruleset.prekill_hook_timeout.size()) {
-    prekill_hook_timeout = std::stoi(ruleset.prekill_hook_timeout);
-    if (prekill_hook_timeout < 0) {
-      OLOG << "Ruleset prekill_hook_timeout must be non-negative";
+    if (!parseDelay(
+            ruleset.prekill_hook_timeout,
+            "prekill_hook_timeout",
+            prekill_hook_timeout)) {
       return nullptr;
     }
   }
